@@ -2379,7 +2379,11 @@ namespace bloch::compiler {
                 for (const auto& ctor : base->constructors) {
                     if (!isAccessible(ctor.visibility, base->name, m_currentClass))
                         continue;
-                    auto cost = paramsConversionCost(ctor.paramTypes, actualTypes);
+                    // 'class IBox extends Box<int>': the base constructor's 'T' parameters are
+                    // the type arguments this class passes to its base.
+                    auto params =
+                        substituteMany(ctor.paramTypes, base->typeParams, cur->baseType.typeArgs);
+                    auto cost = paramsConversionCost(params, actualTypes);
                     if (!cost)
                         continue;
                     if (*cost < bestCost) {
